@@ -8,28 +8,50 @@ bd=$(ls -td out/build/*_cov | head -1)
 python3 - "$bd" <<'PY'
 import sys,os,subprocess,json,glob,re
 bd=os.path.abspath(sys.argv[1])
-cov={}
+cov={}      # file -> best (percent, lines) over the binaries
+lines={}    # file -> {lineno: executed by ANY binary}
 # library objects and harness translation units (several harnesses #include library sources directly)
 for od in glob.glob(os.path.join(bd,'obj_*')) + [bd]:
-    gcnos=glob.glob(os.path.join(od,'*.gcno'))
-    for g in gcnos:
-        r=subprocess.run(['gcov','-n','-o',od,g],capture_output=True,text=True,cwd=od)
-        cur=None
+    for g in glob.glob(os.path.join(od,'*.gcno')):
+        r=subprocess.run(['gcov','-t','-o',od,g],capture_output=True,text=True,cwd=od)
+        cur=None; per={}
         for line in r.stdout.splitlines():
-            m=re.match(r"File '(.*)'",line)
-            if m: cur=m.group(1); continue
-            m=re.match(r"Lines executed:([0-9.]+)% of (\d+)",line)
-            if m and cur and cur.startswith('/repo/'):
-                k=cur[len('/repo/'):]; v=(float(m.group(1)),int(m.group(2)))
-                if k not in cov or v[0]>cov[k][0]: cov[k]=v
-                cur=None
+            m=re.match(r"\s*(-|#####|=====|[0-9]+\*?):\s*([0-9]+):(.*)",line)
+            if not m: continue
+            cnt,no,txt=m.group(1),int(m.group(2)),m.group(3)
+            if no==0:
+                mm=re.match(r"Source:(.*)",txt)
+                if mm: cur=mm.group(1); per.setdefault(cur,{})
+                continue
+            if cur is None or cnt=='-': continue
+            ex = cnt not in ('#####','=====')
+            per[cur][no]=per[cur].get(no,False) or ex
+        for f,d in per.items():
+            f=os.path.normpath(os.path.join(od,f)) if not f.startswith('/') else f
+            if not f.startswith('/repo/') or not d: continue
+            k=f[len('/repo/'):]
+            v=(100.0*sum(d.values())/len(d),len(d))
+            if k not in cov or v[0]>cov[k][0]: cov[k]=v
+            L=lines.setdefault(k,{})
+            for no,ex in d.items(): L[no]=L.get(no,False) or ex
 props=[json.loads(l) for l in open('properties.jsonl')]
-out=[]
+out=[]; out2=[]
+def ranges(ns):
+    ns=sorted(ns); r=[]
+    for n in ns:
+        if r and n==r[-1][1]+1: r[-1][1]=n
+        else: r.append([n,n])
+    return ",".join(str(a) if a==b else "%d-%d"%(a,b) for a,b in r)
+seen=set()
 for p in props:
     out.append("%s"%p['id'])
     for f in p['anchors']['files']:
         c=cov.get(f)
         out.append("   %-45s %s"%(f, ("%5.1f%% of %d lines"%c) if c else "(not compiled into a library / not C)"))
+        if f in lines and f not in seen:
+            seen.add(f); L=lines[f]; miss=[n for n,e in L.items() if not e]
+            out2.append("%-45s union %5.1f%% of %d lines; not executed by any quick tier: %s"%(f,100.0*(len(L)-len(miss))/len(L),len(L),ranges(miss) or "-"))
 open('docs/coverage.txt','w').write("\n".join(out)+"\n")
+open('docs/coverage_lines.txt','w').write("# per anchored file: union over all harness binaries of the quick tiers (a line counts when any binary executed it);\n# the line numbers are those of /repo at the time of the run. Identical return blocks merged by the compiler show up as\n# not executed although their twin is (e.g. decode_cobs.c 209-212).\n"+"\n".join(sorted(out2))+"\n")
 print("\n".join(l for l in out if '%' in l and float(l.split()[1].rstrip('%'))<50))
 PY
